@@ -4,6 +4,7 @@ package main
 
 import (
 	"fmt"
+	"sort"
 	"math/rand"
 	"path/filepath"
 )
@@ -21,7 +22,14 @@ func (b *c15B) net(e int, ok bool)   { b.ops = append(b.ops, c15Op{K: "net", E: 
 func (b *c15B) up(e int, ok bool)    { b.ops = append(b.ops, c15Op{K: "up", E: e, Ok: ok}) }
 func (b *c15B) check()               { b.ops = append(b.ops, c15Op{K: "check"}) }
 func (b *c15B) reinst()              { b.ops = append(b.ops, c15Op{K: "reinst"}) }
-func (b *c15B) refresh(l []int)      { b.ops = append(b.ops, c15Op{K: "refresh", L: append([]int(nil), l...)}); b.reg = append([]int(nil), l...) }
+func (b *c15B) refresh(l []int)      { b.refreshI(l, nil) }
+func (b *c15B) refreshI(l, in []int) {
+	b.ops = append(b.ops, c15Op{K: "refresh", L: append([]int(nil), l...), I: append([]int(nil), in...)})
+	if len(l) > 0 {
+		b.reg = append([]int(nil), l...)
+		sort.Ints(b.reg)
+	}
+}
 func (b *c15B) call(h int, c uint32, d bool) {
 	b.ops = append(b.ops, c15Op{K: "call", Hash: h, Code: c, Defer: d})
 }
@@ -181,11 +189,17 @@ func (b *c15B) segRefresh() {
 			}
 		}
 	}
-	keep := b.reg
-	b.refresh(l)
-	if len(l) == 0 {
-		b.reg = keep // the manager ignores an empty answer
+	var in []int
+	for _, e := range b.reg { // endpoints leaving the active list: some the registry still knows as inactive
+		gone := true
+		for _, x := range l {
+			gone = gone && x != e
+		}
+		if gone && b.coin(0.5) {
+			in = append(in, e)
+		}
 	}
+	b.refreshI(l, in)
 	b.name += "refresh "
 }
 
@@ -246,7 +260,9 @@ func c15GenOne(rng *rand.Rand) c15Case {
 	}
 	segs := 2 + rng.Intn(4)
 	for i := 0; i < segs; i++ {
-		switch rng.Intn(10) {
+		switch rng.Intn(11) {
+		case 10:
+			b.segFlap(false)
 		case 0, 1:
 			b.segStreak()
 		case 2, 3:
@@ -409,6 +425,39 @@ func c15Corpus() []c15Case {
 				b.check()
 			})
 		}
+	}
+	// the registry moves a blocked endpoint to its inactive list and back (and a healthy one): the health record
+	// survives, re-entry only after an answered probe
+	for _, blocked := range []bool{true, false} {
+		blocked := blocked
+		mk(fmt.Sprintf("endpoint-flap(blocked=%v)", blocked), func(b *c15B) {
+			b.refresh([]int{0, 1, 3})
+			for i := 0; i < 6; i++ {
+				b.call(0, 0, false)
+			}
+			if blocked {
+				b.outs(1, 5, false)
+				b.adv(5)
+				b.check()
+			}
+			b.refreshI([]int{0, 3}, []int{1})
+			b.call(0, 0, false)
+			b.call(0, 0, false)
+			b.check()
+			b.refreshI([]int{0, 3, 4}, []int{1}) // another change while it is inactive
+			b.call(0, 0, false)
+			b.refreshI([]int{0, 1, 3, 4}, nil)
+			b.check()
+			for i := 0; i < 8; i++ {
+				b.call(0, 0, false)
+			}
+			b.adv(31)
+			b.check()
+			for i := 0; i < 5; i++ {
+				b.call(0, 0, false)
+			}
+			b.check()
+		})
 	}
 	// a registry refresh drops and re-adds an endpoint whose stale adapter is still queued for a probe: the model's
 	// refutation witness (Props/C15.v, C15_blocked_after_streak_any_refresh_refuted) replayed on the implementation
